@@ -4,11 +4,16 @@
    (eps = 0); argmax returns a label of maximal duration, None only when nothing is there; the
    matrix a * b has entry (i, j) = sum over intersecting track pairs labelled (i, j) of the
    intersection duration, and entry (j, i) of b * a equals entry (i, j) of a * b.
-   Tied by the correspondence, not proved: Annotation.support(collar) (compared as (segment, label)
-   sets with distinct track names), argmax with a support (through the crop), percent=True.
+   argmax(support) is argmax of the intersection-mode crop (characterised in C07), which satisfies
+   the invariant, so it returns a label of maximal duration within the support.
+   support(collar): the result satisfies the invariant, carries uri and modality, and holds, as a
+   multiset of (segment, label), exactly one track per label in use and segment of that label's
+   timeline support(collar) -- nothing else (for fewer than 26^64 - 1 tracks, the fuel of the model's
+   word generator).
+   Tied by the correspondence, not proved: percent=True.
    Statements only. *)
 From PV Require Import Model.AnnotationOps Proofs.SupportP Proofs.MeasureP Proofs.AnnotationInvP
-  Proofs.AnalyzeP Proofs.CooccurrenceP.
+  Proofs.AnalyzeP Proofs.CooccurrenceP Proofs.AnnCropInterP Proofs.WordsP Proofs.AnnSupportP.
 
 Theorem C09_chart : forall eps a, AInv eps a ->
   let ch := snd (chart eps a) in
@@ -28,6 +33,26 @@ Theorem C09_argmax : forall eps a, AInv eps a ->
                 snd (label_duration eps (fst (labels eps a)) l') <= snd (label_duration eps (fst (labels eps a)) l)
   end.
 Proof. exact argmax_spec. Qed.
+Theorem C09_support_is_per_label_timeline_support : forall eps a collar, AInv eps a ->
+  Z.of_nat (List.length (support_recs eps a collar)) < word_bound ->
+  let r := support_ann eps a collar in
+  AInv eps r /\ Permutation (entries (a_tracks r)) (support_recs eps a collar) /\
+  a_uri r = a_uri a /\ a_modality r = a_modality a.
+Proof. exact support_ann_spec. Qed.
+Theorem C09_support_labels_and_segments : forall eps, 0 <= eps -> forall a collar l s, AInv eps a ->
+  Z.of_nat (List.length (support_recs eps a collar)) < word_bound ->
+  (occ (a_tracks (support_ann eps a collar)) l s <->
+   occurs (a_tracks a) l /\ In s (support eps collar (lab_tl eps (a_tracks a) l))).
+Proof. exact support_ann_label_segments'. Qed.
+Theorem C09_argmax_within_support : forall eps, 0 <= eps -> forall a S, AInv eps a ->
+  let c := crop_ann eps a S Inter in
+  match argmax_ann eps a (Some S) with
+  | None => a_bool c = false \/ snd (labels eps c) = []
+  | Some l => In l (snd (labels eps c)) /\
+              forall l', In l' (snd (labels eps c)) ->
+                snd (label_duration eps (fst (labels eps c)) l') <= snd (label_duration eps (fst (labels eps c)) l)
+  end.
+Proof. exact argmax_support_spec. Qed.
 Theorem C09_matrix_entries : forall eps a b,
   mul_ann eps a b = map (fun i => map (fun j => entry eps a b i j) (snd (labels eps b))) (snd (labels eps a)).
 Proof. exact mul_entries. Qed.
@@ -43,12 +68,17 @@ Example C09_nonvacuous :
   let a := ann_of 0 None None [((0, 10), NStr "x", NStr "A"); ((8, 20), NStr "x", NStr "B"); ((9, 12), NStr "y", NStr "A")] in
   let b := ann_of 0 None None [((5, 15), NStr "_", NStr "U")] in
   snd (chart 0 a) = [(NStr "A", 12); (NStr "B", 12)] /\ argmax_ann 0 a None = Some (NStr "A") /\
-  mul_ann 0 a b = [[8]; [7]] /\ mul_ann 0 b a = [[8; 7]].
+  mul_ann 0 a b = [[8]; [7]] /\ mul_ann 0 b a = [[8; 7]] /\
+  itertracks (support_ann 0 a 0) = [((0, 12), NStr "A", NStr "A"); ((8, 20), NStr "B", NStr "B")] /\
+  argmax_ann 0 a (Some (SupSeg (10, 20))) = Some (NStr "B").
 Proof. vm_compute. repeat split. Qed.
 
 Print Assumptions C09_chart.
 Print Assumptions C09_label_duration_is_length_of_union.
 Print Assumptions C09_argmax.
+Print Assumptions C09_support_is_per_label_timeline_support.
+Print Assumptions C09_support_labels_and_segments.
+Print Assumptions C09_argmax_within_support.
 Print Assumptions C09_matrix_entries.
 Print Assumptions C09_track_pairs_of_b_a_are_those_of_a_b_swapped.
 Print Assumptions C09_matrix_transpose.
